@@ -78,7 +78,7 @@ Definition Bitmap := FChecked KBitmap.
 Definition SvcParamsF := FChecked KSvcParams.
 
 (* a check on the whole parsed value (cross-field conditions) *)
-Inductive post_kind := PNone | PSubnet.
+Inductive post_kind := PNone | PSubnet | PIpseckey (g : N).
 
 Inductive fval :=
 | VNum (n : N)
@@ -328,25 +328,49 @@ Definition subnet_ok (fam src : N) (addr : bytes) : bool :=
   && ((src mod 8 =? 0) ||
       match last addr 0 with b => b mod (2 ^ (8 - src mod 8)) =? 0 end).
 
-Definition post_ok (p : post_kind) (v : value) : bool :=
+(* Ipseckey::parse, gateway type g: the row was selected by the gateway type
+   octet; an empty key is a ShortInput unless the algorithm is 0 (none) *)
+Definition post_check (p : post_kind) (v : value) : option N :=
   match p with
-  | PNone => true
+  | PNone => None
   | PSubnet =>
       match v with
-      | [VNum fam; VNum src; VNum _; VBytes addr] => subnet_ok fam src addr
-      | _ => false
+      | [VNum fam; VNum src; VNum _; VBytes addr] => if subnet_ok fam src addr then None else Some E_FORM
+      | _ => Some E_FORM
+      end
+  | PIpseckey g =>
+      match v with
+      | VNum _ :: VNum g' :: VNum alg :: rest =>
+          if negb (g' =? g) then Some E_FORM
+          else match last rest (VNum 0) with
+               | VBytes [] => if alg =? 0 then None else Some E_SHORT
+               | _ => None
+               end
+      | _ => Some E_FORM
       end
   end.
+Definition post_ok (p : post_kind) (v : value) : bool :=
+  match post_check p v with None => true | Some _ => false end.
 
 Definition parse_rdata (dec : decoder) (s : schema) (m : bytes) (pos lim : N)
   : outcome value :=
   do r <- parse_type dec s m pos lim;
-  if snd r =? lim then (if post_ok (s_post s) (fst r) then Ok (fst r) else Err E_FORM)
+  if snd r =? lim
+  then match post_check (s_post s) (fst r) with None => Ok (fst r) | Some e => Err e end
   else Err E_FORM.
 
 (* ---- name decoders *)
 (* the message reader of base/name/parsed.rs (compression pointers followed) *)
 Definition pname_dec : decoder := decode_name.
+
+(* ParsedName::parse followed by a refusal of names whose is_compressed() flag
+   is set (Ipseckey gateway).  The flag is only set by a pointer that follows
+   at least one label: a name that starts with a pointer is re-based at the
+   pointer target and counts as uncompressed. *)
+Definition pname_nc_dec : decoder := fun m pos lim =>
+  do p <- parse_ref m pos lim;
+  if pn_compressed p then Err E_FORM
+  else do r <- pname_labels m p; Ok (fst r, pn_end p).
 
 (* an uncompressed reader (Names.decode_abs on the octets of [pos, lim)) *)
 Definition flat_dec : decoder := fun m pos lim =>
@@ -397,10 +421,16 @@ Fixpoint wf_fvals (ctor : bool) (s : list field) (v : value) : bool :=
 Definition wf_value (s : schema) (v : value) : bool :=
   wf_fvals false (s_fields s) v && (total_len s v <=? 65535) && post_ok (s_post s) v.
 
-(* the constructor accepts *)
+(* the constructor accepts.  Ipseckey::new derives the gateway type from the
+   gateway and does not look at the key. *)
+Definition post_ctor_ok (p : post_kind) (v : value) : bool :=
+  match p with
+  | PIpseckey g => match v with _ :: VNum g' :: _ => g' =? g | _ => false end
+  | _ => post_ok p v
+  end.
 Definition ctor_accepts (s : schema) (v : value) : bool :=
   wf_fvals true (s_fields s) v && (negb (s_ctor_total s) || (total_len s v <=? 65535))
-  && post_ok (s_post s) v.
+  && post_ctor_ok (s_post s) v.
 
 (* The two ways in which an accepted value is not well-formed: *)
 Definition overlong (s : schema) (v : value) : bool := 65535 <? total_len s v.
